@@ -381,70 +381,98 @@ def _rendered_text_is_written_as_rendered(rep: Report, ix: Any, it: Any) -> None
             call_sites.setdefault("", [])
         return call_sites.get(g.qual, [])
 
-    def follow(f: Any, n: ast.AST, seen: set[tuple[str, int]], out: list[tuple[str, str]], written: list[str]) -> None:
-        """n: an expression of f whose value is the rendered text"""
-        if (f.qual, id(n)) in seen or len(seen) > 400:
+    def bind_target(f: Any, tgt: ast.AST, path: tuple, seen: set, out: list, written: list, lost: list) -> None:
+        """tgt receives a value that holds the rendered text at `path` (() = is the text)"""
+        if isinstance(tgt, ast.Name):
+            for use in own_names(f, tgt.id):
+                follow(f, use, path, seen, out, written, lost)
+        elif isinstance(tgt, (ast.Tuple, ast.List)) and path and isinstance(path[0], int) and not any(isinstance(e, ast.Starred) for e in tgt.elts):
+            if path[0] < len(tgt.elts):
+                bind_target(f, tgt.elts[path[0]], path[1:], seen, out, written, lost)
+        elif path:
+            lost.append(f"{f.module.rel}:{getattr(tgt, 'lineno', 0)}")
+        else:
+            out.append((f"stored in {ast.unparse(tgt)[:60]}", f"{f.module.rel}:{getattr(tgt, 'lineno', 0)}"))
+
+    def follow(f: Any, n: ast.AST, path: tuple, seen: set, out: list, written: list, lost: list) -> None:
+        """n: an expression of f whose value is the rendered text (path == ()) or a tuple / iterable that holds it: path names the
+        position, an int per tuple index and '*' per iteration (`yield p, text` seen from the caller: ('*', 1))"""
+        if (f.qual, id(n), path) in seen or len(seen) > 600:
             return
-        seen.add((f.qual, id(n)))
+        seen.add((f.qual, id(n), path))
         p = parent_of(f, n)
         at = f"{f.module.rel}:{getattr(n, 'lineno', f.node.lineno)}"
         if p is None or isinstance(p, ast.Expr):
             return
-        if isinstance(p, ast.Starred):
-            out.append((f"unpacked with * in {ast.unparse(p)[:60]}", at))
-            return
         if isinstance(p, ast.keyword):
             p = parent_of(f, p)
+        if isinstance(p, ast.Tuple) and isinstance(p.ctx, ast.Load) and not any(isinstance(e, ast.Starred) for e in p.elts):
+            follow(f, p, (next(i for i, e in enumerate(p.elts) if e is n), *path), seen, out, written, lost)
+            return
+        if isinstance(p, (ast.Yield, ast.Return)):
+            sub = ("*", *path) if isinstance(p, ast.Yield) else path
+            for g, c in callers_of(f):
+                follow(g, c, sub, seen, out, written, lost)
+            return
+        if isinstance(p, (ast.For, ast.comprehension)) and p.iter is n:
+            if path and path[0] == "*":
+                bind_target(f, p.target, path[1:], seen, out, written, lost)
+            elif path:
+                lost.append(at)
+            else:
+                out.append(("iterated character by character", at))
+            return
+        if isinstance(p, (ast.Assign, ast.AnnAssign, ast.NamedExpr)) and getattr(p, "value", None) is n:
+            for t in (p.targets if isinstance(p, ast.Assign) else [p.target]):
+                bind_target(f, t, path, seen, out, written, lost)
+            if isinstance(p, ast.NamedExpr):
+                follow(f, p, path, seen, out, written, lost)
+            return
+        if isinstance(p, ast.IfExp):
+            if n is not p.test:
+                follow(f, p, path, seen, out, written, lost)
+            return
+        if isinstance(p, ast.BoolOp):
+            follow(f, p, path, seen, out, written, lost)      # `text or ""` hands the operand on
+            return
+        if isinstance(p, (ast.Compare, ast.If, ast.While, ast.Assert)) or (isinstance(p, ast.UnaryOp) and isinstance(p.op, ast.Not)):
+            return          # tested, not transformed
         if isinstance(p, ast.Call) and n is not p.func:
-            if isinstance(p.func, ast.Attribute) and p.func.attr in ("write_text", "write"):
-                data = p.args[0] if p.args else next((k.value for k in p.keywords if k.arg in ("data", "s")), None)
-                if data is n:
-                    written.append(at)
-                    return
-            if isinstance(p.func, ast.Name) and p.func.id == "str" and len(p.args) == 1 and not p.keywords:
-                follow(f, p, seen, out, written)
-                return
             g = callee_of(ix, f, p)
             if g is not None:
                 bound = bind_call(ix, f, p, g)
                 names = [k for k, v in (bound or {}).items() if v is n]
                 a = g.node.args
                 if not names or (a.vararg and names[0] == a.vararg.arg) or (a.kwarg and names[0] == a.kwarg.arg):
-                    out.append((f"handed to {g.name}() in a way that cannot be followed", at))
+                    (lost if path else out).append(at if path else (f"handed to {g.name}() in a way that cannot be followed", at))
                     return
                 for use in own_names(g, names[0]):
-                    follow(g, use, seen, out, written)
+                    follow(g, use, path, seen, out, written, lost)
                 return
-            out.append((f"passed to {ast.unparse(p.func)[:60]}()", at))
+            if not path:
+                if isinstance(p.func, ast.Attribute) and p.func.attr in ("write_text", "write"):
+                    data = p.args[0] if p.args else next((k.value for k in p.keywords if k.arg in ("data", "s")), None)
+                    if data is n:
+                        written.append(at)
+                        return
+                if isinstance(p.func, ast.Name) and p.func.id == "str" and len(p.args) == 1 and not p.keywords:
+                    follow(f, p, path, seen, out, written, lost)
+                    return
+                out.append((f"passed to {ast.unparse(p.func)[:60]}()", at))
+                return
+        if isinstance(p, ast.Subscript) and p.value is n and path and isinstance(path[0], int) and isinstance(p.slice, ast.Constant):
+            if p.slice.value == path[0]:
+                follow(f, p, path[1:], seen, out, written, lost)
             return
-        if isinstance(p, (ast.Assign, ast.AnnAssign, ast.NamedExpr)) and getattr(p, "value", None) is n:
-            tgts = p.targets if isinstance(p, ast.Assign) else [p.target]
-            for t in tgts:
-                if isinstance(t, ast.Name):
-                    for use in own_names(f, t.id):
-                        follow(f, use, seen, out, written)
-                else:
-                    out.append((f"stored in {ast.unparse(t)[:60]}", at))
-            if isinstance(p, ast.NamedExpr):
-                follow(f, p, seen, out, written)
+        if path:
+            lost.append(at)       # a collection that holds the text goes somewhere this rule does not follow: undecided, not a violation
             return
-        if isinstance(p, ast.IfExp):
-            if n is not p.test:
-                follow(f, p, seen, out, written)
-            return
-        if isinstance(p, ast.Return):
-            for g, c in callers_of(f):
-                follow(g, c, seen, out, written)
-            return
-        if isinstance(p, ast.BoolOp):
-            follow(f, p, seen, out, written)      # `text or ""` hands the operand on
-            return
-        if isinstance(p, (ast.Compare, ast.If, ast.While, ast.Assert)) or (isinstance(p, ast.UnaryOp) and isinstance(p.op, ast.Not)):
-            return          # tested, not transformed
-        if isinstance(p, ast.Attribute):
+        if isinstance(p, ast.Starred):
+            out.append((f"unpacked with * in {ast.unparse(p)[:60]}", at))
+        elif isinstance(p, ast.Attribute):
             out.append((f"`.{p.attr}` of the rendered text", at))
-            return
-        out.append((f"{type(p).__name__} `{ast.unparse(p)[:70]}`", at))
+        else:
+            out.append((f"{type(p).__name__} `{ast.unparse(p)[:70]}`", at))
 
     followed: set[str] = set()
     for f in ix.all_functions:
@@ -460,7 +488,10 @@ def _rendered_text_is_written_as_rendered(rep: Report, ix: Any, it: Any) -> None
             followed |= set(names) or {f"{f.qual}:{c.lineno}"}
             out: list[tuple[str, str]] = []
             written: list[str] = []
-            follow(f, c, set(), out, written)
+            lost: list[str] = []
+            follow(f, c, (), set(), out, written, lost)
+            if lost and not out:
+                rep.observe(f"R05.8: the text rendered at {f.module.rel}:{c.lineno} enters a collection that is not followed further ({sorted(set(lost))[:3]})")
             for tn in names or [f"<template of {f.qual.replace(PKG + '.', '')}>"]:
                 rep.check(not out, "R05.8", f"{tn}::rendered-text-written-as-rendered",
                           "the rendered text is changed before it is written (" + "; ".join(f"{w} at {a}" for w, a in out[:4]) + "): the generated "
